@@ -4,7 +4,7 @@ import Verif.Model.AcmeAuth
 
   `req`  — one request against the world as the harness observed it just before sending:
     req m=POST p=x<hex chi pattern>
-        pid= pname= pknown= url= ct= parsed= fresh= tgt= tgt2= plok= deact= only= vcert=        (request)
+        pid= pname= pknown= url= ct=0..3 cpath= parsed= fresh= tgt= tgt2= plok= deact= only= ckey=        (request)
         ns= ue= ac=rsa|eced|other alg= es= short= jwk=-|isRsa.bytes.valid.thumb.alg
         kid= kb= kpre= nonce= jurl=!|n ver=-|thumb:pRSB,… pe=                                   (parsed JWS)
         nl=0|1  accs=-|id:key:keyAlg:status:loc:provId:provName,…                               (world)
@@ -81,7 +81,7 @@ def rejS : Rej → String
   | .forbidden => "403:unauthorized"
   | .accountDoesNotExist => "400:accountDoesNotExist"
   | .serverInternal => "500:serverInternal"
-  | .notImplemented => "501:notImplemented"
+  | .notImplemented => "501:rejectedIdentifier"   -- errors.go maps ErrorNotImplementedType to the rejectedIdentifier URN
   | .alreadyRevoked => "400:alreadyRevoked"
   | .provNotFound => "404:notFound"
   | .crash => "crash"
@@ -113,10 +113,10 @@ def evalReq (kv : List (String × String)) : Option String := do
     payloadEmpty := (← flag kv "pe") }
   let rq : Req := {
     provId := (← nat kv "pid"), provName := (← nat kv "pname"), provKnown := (← flag kv "pknown"),
-    url := (← nat kv "url"), ctOk := (← flag kv "ct"), parsed := (← flag kv "parsed"), jws,
+    url := (← nat kv "url"), ct := (← nat kv "ct"), certPath := (← flag kv "cpath"), parsed := (← flag kv "parsed"), jws,
     fresh := (← nat kv "fresh"), target := (← nat kv "tgt"), target2 := (← nat kv "tgt2"),
     payloadOk := (← flag kv "plok"), wantDeactivate := (← flag kv "deact"), onlyExisting := (← flag kv "only"),
-    verCert := (← flag kv "vcert") }
+    certKey := (← nat kv "ckey") }
   let nl ← flag kv "nl"
   let w : World := {
     nonces := if nl then [jws.nonce] else [],
